@@ -729,6 +729,17 @@ class Executor:
             s.pop()
         return r != z3.unsat
 
+    def feasible_q(self, st, cond, timeout_ms=1500):
+        """like feasible, with the quantified facts of the path and a short timeout (unknown counts as feasible)"""
+        s = z3.Solver()
+        s.set('timeout', timeout_ms)
+        for ax in self.m.string_axioms() + list(self.axioms):
+            s.add(ax)
+        for t in st.pc:
+            s.add(t)
+        s.add(cond)
+        return s.check() != z3.unsat
+
     # ------------------------------------------------------------------ loops
     cut_loops = True
 
@@ -1373,7 +1384,8 @@ class Executor:
         self.nil_check(st, frame, ins, p)
         if v.py is not None and isinstance(v.py, Closure):
             # closures stored in memory: keep python-side object in a side table keyed by location
-            self.closure_cells[(p.kind, p.T, p.path, str(p.ref))] = v.py
+            self.closure_cells[(p.kind, p.T, p.path, z3.simplify(p.ref).get_id())] = v.py
+            self._cc_keep.append(z3.simplify(p.ref))
         self.store(st, frame, p, v, self.m.elem(addr.t))
         return None
 
@@ -1399,7 +1411,7 @@ class Executor:
                 from . import specfuns
                 env = self.spec.env_for(frame, st, st, None)
                 specfuns.unfold_any(self.spec, env, None, self.m.any_make(x.t, [x.leaves[0]]), [x.t])
-            key = (p.kind, p.T, p.path, str(p.ref))
+            key = (p.kind, p.T, p.path, z3.simplify(p.ref).get_id()) if self.closure_cells else None
             if key in self.closure_cells:
                 v.py = self.closure_cells[key]
             a0 = ins['args'][0]
@@ -1599,6 +1611,12 @@ class Executor:
         excl = self.db.wfexclude.get(t.get('name', ''), set())
         cands = [c for c in impls if c.rsplit('.', 1)[-1] not in excl]
         specfuns.unfold_any(self.spec, env, v.t, v.leaves[0], cands)
+        if self.db.uses_ewf:
+            specfuns.unfold_any(self.spec, env, v.t, v.leaves[0], cands, 'ewf')
+            ewf = specfuns.wf_any_fn(self.spec, 'ewf')
+            for c in impls:
+                if c.rsplit('.', 1)[-1] in excl and c in self.m.any_index:
+                    st.assume(z3.Not(z3.And(ewf(v.leaves[0]), self.m.any_is(c, v.leaves[0]))))
         # the excluded implementers are never well-formed nodes of this interface
         wf = specfuns.wf_any_fn(self.spec)
         for c in impls:
@@ -2142,6 +2160,9 @@ class Executor:
             self.assume_functional(st, f2, callee_frame, pre, results)
         for cl in c.ensures:
             st.assume(self.spec.eval_bool(cl.ast, env2))
+        for cl in c.assumes:
+            st.assume(self.spec.eval_bool(cl.ast, env2))
+            self.trusted.add('ASSUMED postcondition of %s [%s]: %s' % (self.short(f2), cl.label, cl.text[:140]))
         if 'trusted' in c.flags:
             self.trusted.add('trusted contract: ' + self.short(f2))
         if len(results) == 0:
@@ -2198,9 +2219,15 @@ class Executor:
         def collect(st3, fr3, res):
             outcomes.append((st3, fr3, res))
         base_len = len(st.pc)
+        rt = m.types.get(recv.t) or {}
+        excl = self.db.wfexclude.get(rt.get('name', ''), set())
         for (c, fname) in targets:
             cond = m.any_is(c, a)
             if not self.feasible(st, cond):
+                continue
+            if c.rsplit('.', 1)[-1] in excl and not self.feasible_q(st, cond):
+                # a dynamic type the well-formedness predicate rules out: decided with the quantified facts
+                # (loop invariants over slices of nodes) that the fast pruning check leaves aside
                 continue
             st2 = st.fork()
             st2.assume(cond)
@@ -2302,6 +2329,7 @@ class Executor:
 
     inline_stack = []
     closure_cells = {}
+    _cc_keep = []
 
     # ------------------------------------------------------------------ misc helpers used by lib / specs
     def map_len(self, st, mt, mref):
